@@ -26,9 +26,13 @@ LEVEL_NOTE = ("Coq 8.16.1 kernel; theorems over R use the standard library's rea
               "and Miser's var (does not influence the result) are not modelled; hook: verif::mc_seed (LIBPHYSICA_VERIF)")
 TOL = (1e-11, 1e-300)
 TRUSTED = ["std::mt19937 / std::uniform_real_distribution<double>(0,1) (libstdc++ generate_canonical): modelled as an abstract stream; reimplemented in ocaml/C14_driver.ml and compared with the library's draws (op stream)",
-           "the seed hook libphysica::verif::mc_seed_set / mc_seed in Integration.cpp (compiled with -DLIBPHYSICA_VERIF)"]
+           "the seed hook libphysica::verif::mc_seed_set / mc_seed in Integration.cpp (compiled with -DLIBPHYSICA_VERIF)",
+           "harness/C14.cpp runs every case in a process forked from an image that has not yet called the library (function-local statics as in a fresh process), and the "
+           "fresh-process value of a history case in a further one; an integration is brought to an end by a C++ exception thrown from the harness' integrand and caught by the harness"]
 ASSUMPTIONS = ["the six-standard-error clause is decided on the implementation with fixed seeds against closed-form integrals, using the analytic standard error of plain Monte Carlo with the same budget, V*sqrt(Var f/ncall), as the yardstick for all three methods (Vegas and Miser are variance-reduction schemes)",
-               "exactness on constants is decided on the implementation with slack 2*(ncall+100)*2^-53 relative (one rounding per accumulated term)"]
+               "exactness on constants is decided on the implementation with slack 2*(ncall+100)*2^-53 relative (one rounding per accumulated term)",
+               "a history may contain integrations that do not run to their end because their integrand throws (the property's 'integrations run before it' read as calls of Integrate_MC made before it); "
+               "the model of such a call (integrate_mc_throwing) carries the statics of the iterations completed before the exception and is compared with the library through the calls that follow it"]
 
 MC = ("Monte-Carlo", "Vegas", "Miser")
 
@@ -218,9 +222,9 @@ def generate(rng, tier):
                 d = rng.choice([1, 2, 3]) if ncall > 5000 else rng.randint(1, 6)
                 region = rand_region(rng, d); fam = rand_fam(rng, d, kind)
                 cs.append(Case("mc " + call_text(method, rng.randrange(2 ** 32), ncall, region, fam) + " # " + fam.ann(), ("mc", method, "budget-pow2", kind)))
-        for _ in range(40 if big else 8):
+        for _ in range(24 if big else 8):
             d = rng.choice([1, 2, 3, 4, 6])
-            ncall = structured_budget(rng, 1000, cap if big else cap // 2, d)
+            ncall = structured_budget(rng, 1000, cap * 2 // 5 if big else cap // 2, d)
             if not big and ncall > 20000: d = rng.choice([1, 2])
             kind = rng.choice(["const", "const", "sepexp", "gauss", "poly"])
             region = rand_region(rng, d); fam = rand_fam(rng, d, kind)
@@ -283,6 +287,20 @@ def generate(rng, tier):
         if with_throw: tags.append("with-throwing-call")
         if nh == 0: tags.append("repeated")
         cs.append(Case(f"hist {nh} " + " ".join(texts), tuple(tags)))
+    # the shortest history with a hidden trace, for every method: one call of the observed call's method brought to an end in the middle
+    # (of a sweep, an iteration, a recursion level), then the observed call
+    for rep in range(6 if big else 2):
+        for method in MC:
+            dh, d = rng.randint(1, 5), rng.randint(1, 5)
+            nch, ncall = rng.choice([500, 1000, 2000]), rng.choice([500, 1000, 2000])
+            total = 5 * vegas_layout(nch, dh)[3] if method == "Vegas" else nch
+            n = rng.randint(2, total - 1)
+            kind = "corner" if (method == "Miser" and rep % 2 == 0) else rng.choice(["const", "sepexp", "gauss", "poly"])
+            if kind == "corner": d = rng.choice([2, 3])
+            rh, ro = rand_region(rng, dh), rand_region(rng, d, plain=(kind == "corner"))
+            texts = [call_text(method, rng.randrange(2 ** 32), nch, rh, rand_fam(rng, dh, rng.choice(["sepexp", "gauss", "poly"])), throw_at=n),
+                     call_text(method, rng.randrange(2 ** 32), ncall, ro, rand_fam(rng, d, kind))]
+            cs.append(Case("hist 1 " + " ".join(texts), ("hist", method, "same-dim", "with-throwing-call", "shortest")))
     # the 2-D / 3-D front ends: anisotropic offset regions, asymmetric integrand
     for _ in range(12 if big else 4):
         for method in MC:
